@@ -142,7 +142,18 @@ def _dunder(ex, st, o, v, name, args, node=None):
     return r
 
 
-def obj_truth(ex, st, v):
+def obj_truth(ex, st, v, ref=None):
+    """Python truth of an instance: its real __bool__, else __len__ != 0 (single-path methods only)"""
+    if isinstance(ref, Ref):
+        for name in ("__bool__", "__len__"):
+            fnode, _ci, _m = find_method(ex, v.cls, name)
+            if fnode is None:
+                continue
+            outs = _dunder(ex, st, ref, v, name, [])
+            if len(outs) != 1 or outs[0][0] is not st or outs[0][0].ctl:
+                raise Unsupported("truth of object: %s.%s has several outcomes" % (v.cls, name))
+            r = outs[0][1]
+            return ex.truth(r, st)
     raise Unsupported("truth of object (use len())")
 
 
@@ -389,6 +400,12 @@ def s_join(ex, st, s, args, kwargs, node):
                 out.append(s)
             out.append(x)
         return str_concat(out) if out else ""
+    from .values import OpaqueVecApp
+    if isinstance(v, (OpaqueVecApp, Vec)):
+        # the joined text of a symbolic sequence of names: an unconstrained fresh name (its content is not modelled)
+        used(ex, "str.join over a symbolic sequence yields an unconstrained string")
+        probe = v.arg.at(z3.IntVal(0)) if isinstance(v, OpaqueVecApp) else v.at(z3.IntVal(0))
+        return fresh(to_z3(probe).sort(), "joined")
     raise Unsupported("join of symbolic sequence")
 
 
